@@ -15,6 +15,7 @@ open GoInt
 namespace Proofs.Mvp61Witness
 open Model.Mvp61
 
+-- `DecidableEq` of the eight-component tuple of `obs` needs more than the default 128 instance-synthesis steps
 set_option synthInstance.maxSize 512
 
 def mem11 (n : Nat) : List Byte := List.replicate n 0x11#8
